@@ -170,6 +170,33 @@ CHECKS["C12"]["text"] += (" parse_args (pass/mode composition, custom actions, i
                           "3 names with a hang timeout) is covered by a bounded native stand-in against an oracle computed from "
                           "the generator's own description of the configuration.")
 
+CHECKS["C10"] = dict(
+    category="proof",
+    text=("Decided as non-interference over contracts: the per-entry association block of finder.find (proved, C08) has no "
+          "code-base parameter at all and nothing on the association path mentions membership (syntactic obligations), so "
+          "files named by entries or reached by #include are preprocessed whether or not they are members; get_setmap "
+          "(proved, C06) reads membership only through the enumeration and returns a sum over the enumerated canonical "
+          "files, and the lemma Total(kept + removed) == Total(kept) + Total(removed) shows that excluding files removes "
+          "exactly their summands; -x patterns and analysis-file patterns reach CodeBase as one list (syntactic). A bounded "
+          "native run analyses model code bases with and without their exclusion list."),
+    design_ref="DESIGN.md section 5 C10, section 9",
+    note=COMMON_NOTE + "assumptions of C06/C08/C09/C15 for the shared units; argparse/tomllib (A6); language inherited by an included header vs its own when pre-parsed is noted, not covered.",
+    technique=TECH,
+)
+CHECKS["C14"] = dict(
+    category="proof",
+    text=("Corollary check: the schedule (iteration order of sets, dicts, directory listings, platform tables) is a universally "
+          "quantified variable of every VC - each set/dict/rglob loop iterates an arbitrary duplicate-free enumeration - and the "
+          "postconditions of coverage, average_coverage, distance, divergence, extract_platforms, get_setmap, find_duplicates, "
+          "CodeBase.__iter__ and the per-entry block of find relate order-free views only; they are re-discharged here, so the "
+          "results hold for every PYTHONHASHSEED and scandir order. Ordering choices that reach the output (sorted platform "
+          "names, sorted row labels) are pinned syntactically. A bounded native run repeats the three front ends in fresh "
+          "processes under different hash seeds and platform-table permutations."),
+    design_ref="DESIGN.md section 5 C14, section 9",
+    note=COMMON_NOTE + "A2: float summation order may differ in the last bit; sequence order of records/groups/equal-sized rows follows enumeration order and is not claimed.",
+    technique=TECH,
+)
+
 NA = {}
 
 DEFAULT_NA = "check not built yet (work in progress; see DESIGN.md section 5 for the plan)"
